@@ -22,16 +22,26 @@ ASSUMPTIONS = ["one BLAS/OpenMP thread; exact equality is demanded because both 
 TOLERANCES = {"fingerprints": "exact (NMF: 1e-9)"}
 
 
-def _fit(entry, est, data, seed):
+FRAME_OK = ("KMeansL1L2",)          # classes whose fit takes a DataFrame through scikit-learn's own validation (ConstraintKMeans refuses one)
+
+
+def _fit(entry, est, data, seed, as_frame=False):
     X, y, w = R.materialize(data)
+    Xin = X
+    if as_frame and entry.name in FRAME_OK and isinstance(X, np.ndarray) and X.ndim == 2:
+        import pandas
+        Xin = pandas.DataFrame(X, columns=["f%d" % j for j in range(X.shape[1])])       # named columns: scikit-learn records them
     np.random.seed(seed)
-    entry.fit(est, X, y, w)
+    entry.fit(est, Xin, y, w)
     return X, y
 
 
 def _fp(entry, est, data, X, y, seed):
     np.random.seed(seed + 7)
-    return R.fingerprint(entry, est, entry.probe(data, X, y))
+    fp = R.fingerprint(entry, est, entry.probe(data, X, y))
+    # what scikit-learn remembers of the training table's columns is part of the model: it decides what later calls accept
+    fp["attr:feature-bookkeeping"] = [repr(getattr(est, "n_features_in_", None)), [str(c) for c in getattr(est, "feature_names_in_", [])]]
+    return fp
 
 
 def check_refit(case):
@@ -53,23 +63,24 @@ def check_refit(case):
             current = want
             reconfigured = True
         data = case["datasets"][i]
-        X, y = _fit(entry, inst, data, seed)
+        fr = bool(h[3]) if len(h) > 3 else False
+        X, y = _fit(entry, inst, data, seed, fr)
         got = _fp(entry, inst, data, X, y, seed)
         fresh = clone(inst)
-        Xf, yf = _fit(entry, fresh, data, seed)
+        Xf, yf = _fit(entry, fresh, data, seed, fr)
         ref = _fp(entry, fresh, data, Xf, yf, seed)
         d = R.same_fingerprint(got, ref, exact=entry.exact)
         f2 = dict(facts, step=step, refit=step > 0, reconfigured=reconfigured)
         require(d is None, "refit:differs-from-clone-fit" if step > 0 else "fit:differs-from-clone-fit",
                 "after fitting data set %d (step %d of the history) the instance differs from a fresh clone fitted on it: %s" % (i, step, d), f2)
         fresh2 = clone(inst)
-        X2, y2 = _fit(entry, fresh2, data, seed)
+        X2, y2 = _fit(entry, fresh2, data, seed, fr)
         d2 = R.same_fingerprint(ref, _fp(entry, fresh2, data, X2, y2, seed), exact=entry.exact)
         require(d2 is None, "same-seed:two-fits-differ", "two fresh clones fitted on the same data under the same NumPy seed differ: %s" % d2, f2)
         # ... and an object built afresh from the configuration in force (a clone taken now would inherit whatever an earlier fit wrote into
         # the hyper-parameters)
         built = R.build(case["spec2"] if current == 1 else case["spec"])
-        Xb, yb = _fit(entry, built, data, seed)
+        Xb, yb = _fit(entry, built, data, seed, fr)
         db = R.same_fingerprint(got, _fp(entry, built, data, Xb, yb, seed), exact=entry.exact)
         require(db is None, "refit:differs-from-newly-built" if step > 0 else "fit:differs-from-newly-built",
                 "after the history the instance differs from an object newly built with the same configuration and fitted on the same data: %s" % db, f2)
@@ -80,6 +91,11 @@ def check_refit(case):
         if step == 0 and "transform" in entry.methods and entry.kind != "target" and hasattr(inst, "fit_transform"):
             ft = R.build(case["spec2"] if current == 1 else case["spec"])
             Xt, yt, wt = R.materialize(data)
+            framed = False
+            if fr and entry.name in FRAME_OK and isinstance(Xt, np.ndarray) and Xt.ndim == 2:
+                import pandas
+                Xt = pandas.DataFrame(Xt, columns=["f%d" % j for j in range(Xt.shape[1])])
+                framed = True
             np.random.seed(seed)
             try:
                 if entry.kind in ("cluster", "nmf", "text", "frame"):
@@ -95,7 +111,7 @@ def check_refit(case):
                 else:
                     raise
             if out_ft is not None:
-                dft = R.same_fingerprint(got, _fp(entry, ft, data, Xt, yt, seed), exact=entry.exact)
+                dft = R.same_fingerprint(got, _fp(entry, ft, data, np.asarray(Xt) if framed else Xt, yt, seed), exact=entry.exact)
                 require(dft is None, "fit_transform:other-model-than-fit", "an object trained through fit_transform differs from one trained through fit on the same data: %s" % dft, f2)
         # another instance of the same class fitted on OTHER data under another seed (two models alive in one process): what this
         # instance answers is its own business - module- or class-level state shared between instances shows here
@@ -126,7 +142,7 @@ def _refit_cases(draw, name, tier="quick"):
     datasets = [entry.data(draw) for _ in range(nd)]
     nh = draw(st.integers(2, 4 if tier == "quick" else 6))
     spec2 = R.spec_for(name, draw, flavour) if draw(st.integers(0, 2)) == 0 else None
-    history = [[draw(st.integers(0, nd - 1)), draw(st.integers(0, 2**31 - 10)), draw(st.integers(0, 1))] for _ in range(nh)]
+    history = [[draw(st.integers(0, nd - 1)), draw(st.integers(0, 2**31 - 10)), draw(st.integers(0, 1)), draw(st.booleans())] for _ in range(nh)]
     if len(set(h[0] for h in history)) == 1:
         history[-1][0] = (history[-1][0] + 1) % nd
     return dict(cls=name, spec=spec, spec2=spec2, datasets=datasets, history=history)
